@@ -130,7 +130,7 @@ Fixpoint pick_min_from (lt : row -> row -> bool) (i : nat) (runs : list (list ro
 Definition pick_min lt runs := pick_min_from lt 0 runs None.
 
 (** consume the head of run [i] *)
-Fixpoint pop_run (i : nat) (runs : list (list row)) : list (list row) :=
+Fixpoint pop_run (i : nat) (runs : list (list row)) {struct runs} : list (list row) :=
   match runs with
   | [] => []
   | r :: rs => match i with O => tl r :: rs | S i' => r :: pop_run i' rs end
